@@ -86,7 +86,7 @@ Lemma ss_shutdown_bals : forall c s a b s', ss_shutdown c s a b = Some s' -> st_
 Proof. unfold ss_shutdown; intros. crush H; bals_base; bals_done. Qed.
 Lemma ss_upd_blobber_bals : forall c s a b cap wp rp na s', ss_upd_blobber c s a b cap wp rp na = Some s' -> st_bals s' = st_bals s.
 Proof. unfold ss_upd_blobber; intros. crush H; bals_base; bals_done. Qed.
-Lemma ss_add_assigner_bals : forall c s a n i t s', ss_add_assigner c s a n i t = Some s' -> st_bals s' = st_bals s.
+Lemma ss_add_assigner_bals : forall c s a n k i t s', ss_add_assigner c s a n k i t = Some s' -> st_bals s' = st_bals s.
 Proof. unfold ss_add_assigner; intros. crush H; bals_base; bals_done. Qed.
 
 (* ---------- operations that queue a transfer: which one ---------- *)
@@ -193,7 +193,7 @@ Definition ss_op_sender (o : ss_op) : Z :=
   | OpKill sender _ => sender
   | OpShutdown sender _ => sender
   | OpUpdBlobber sender _ _ _ _ _ => sender
-  | OpAddAssigner sender _ _ _ => sender
+  | OpAddAssigner sender _ _ _ _ => sender
   | OpFreeAlloc _ sender _ _ _ _ _ _ => sender
   end.
 
@@ -209,8 +209,8 @@ Definition ss_op_value (o : ss_op) : Z :=
 (* a free-storage marker the assigner really issued for this sender and that may still be redeemed *)
 Definition ss_free_grant (s : ss_state) (o : ss_op) (grant : Z) : Prop :=
   match o with
-  | OpFreeAlloc _ sender assigner recipient coin nonce sig_ok _ =>
-      sender = recipient /\ sig_ok = true /\ coin = Some grant /\
+  | OpFreeAlloc _ sender assigner recipient coin nonce signer _ =>
+      sender = recipient /\ ss_marker_sig_ok s assigner signer = true /\ coin = Some grant /\
       exists a, ss_find_assigner assigner (st_assigners s) = Some a /\ ~ In nonce (as_nonces a) /\
                 grant <= as_indiv a /\ as_redeemed a + grant <= as_total a
   | _ => False
